@@ -21,7 +21,7 @@ def run(tier):
     cviols, cfull = info.pop("cli", ([], []))
     cbad = set()
     for i, name in cviols:
-        if name in NAMES | {"RowsOK"}:
+        if name in NAMES and not cfull[i - 1].get("mustrefuse"):
             o = cfull[i - 1]
             cbad.add(i)
             case = engine.case_of(o, name)
